@@ -81,3 +81,20 @@ Theorem C07_quantize_keeps_min_max_partial : forall qlevel centroid data lo hi,
   (forall y, In y (quantize qlevel centroid data) -> lo <= y <= hi).
 Proof. exact quantize_keeps_min_max. Qed.
 Print Assumptions C07_quantize_keeps_min_max_partial.
+
+(** The same round trip with the lossless coder instantiated — no hypothesis left
+    about it: DecodeAlpha's rebuilt 5-byte header in front of the payload, decoded
+    by the VP8L SPECIFICATION decoder, for EVERY well-formed plan (choice of
+    transforms, codes, tokens …) the lossless encoder may emit for the green image
+    of the filtered plane; proved from C03's emit_decode and the header-bytes
+    lemma. *)
+From Webp Require Import Vp8l.Vp8lEmit Vp8l.Vp8lEmitDecode Conform.ConformFile Conform.ConformAlpha.
+Theorem C07_alpha_lossless_chunk_exact_with_spec_decoder : forall rs w h filter r16 (p : plan),
+  1 <= w -> 1 <= h -> w * h <= 2^30 ->
+  wf_plane (Z.to_nat w) rs -> Z.of_nat (length rs) = h -> 0 <= filter <= 3 ->
+  (r16 = 0 \/ r16 = 16) ->
+  wf_plan p -> p_alpha p = 0 -> p_w p = w -> p_h p = h ->
+  green_of p = concat (apply_filter filter rs) ->
+  alpha_decode ((1 + 4 * filter + r16) :: skipn 5 (emit p)) w h = Ok (concat rs).
+Proof. exact alpha_lossless_chunk_exact. Qed.
+Print Assumptions C07_alpha_lossless_chunk_exact_with_spec_decoder.
